@@ -1,6 +1,8 @@
 package main
 
 import (
+	"bufio"
+	"time"
 	"github.com/mandykoh/prism/meta"
 	"bytes"
 	"encoding/binary"
@@ -39,12 +41,42 @@ func safeReadProfile(data []byte) (p *icc.Profile, err error, panicked interface
 }
 
 func safeDescription(p *icc.Profile) (s string, err error, panicked interface{}) {
-	defer func() {
-		if x := recover(); x != nil {
-			panicked = x
-		}
+	one := func() (s string, err error, panicked interface{}) {
+		defer func() {
+			if x := recover(); x != nil {
+				panicked = x
+			}
+		}()
+		s, err = p.Description()
+		return
+	}
+	s, err, panicked = one()
+	if panicked != nil {
+		return
+	}
+	// asking again must return, and succeed or fail as the first call did (a result may be cached, a lock may be held):
+	// the second call runs under a deadline of its own
+	type res struct {
+		s   string
+		err error
+		pan interface{}
+	}
+	ch := make(chan res, 1)
+	go func() {
+		s2, e2, p2 := one()
+		ch <- res{s2, e2, p2}
 	}()
-	s, err = p.Description()
+	select {
+	case r2 := <-ch:
+		if r2.pan != nil {
+			panicked = r2.pan
+		} else if (r2.err == nil) != (err == nil) {
+			// (the text itself may legitimately differ between calls when several non-English records are admissible)
+			panicked = fmt.Sprintf("second Description() call succeeds/fails differently from the first: %q/%v then %q/%v", s, err, r2.s, r2.err)
+		}
+	case <-time.After(5 * time.Second):
+		panicked = "second Description() call on the same Profile did not return within 5 s (blocked)"
+	}
 	return
 }
 
@@ -506,6 +538,37 @@ func corrC08Icc(c *corrCtx) {
 		profiles = append(profiles, d.build())
 	}
 	profiles = append(profiles, realProfiles()...)
+	// the same bytes behind readers of different dynamic types (a bare *bytes.Reader / *strings.Reader knows its size,
+	// a *bytes.Buffer or a bufio.Reader does not), with the header's size field true, over- and under-stated
+	for pi, p0 := range profiles {
+		if len(p0) < 132 {
+			continue
+		}
+		for _, sz := range []uint32{uint32(len(p0)), uint32(len(p0)) + 1, uint32(len(p0)) + 3, 0xffffffff, uint32(len(p0)) - 1, 0}[:2+pi%5] {
+			p := append([]byte{}, p0...)
+			binary.BigEndian.PutUint32(p[0:], sz)
+			ref := iccOutReader(bufioSized(&schedReader{data: p, sched: []int{7}, endErr: ioEOF()}, 64), p)
+			for _, k := range []string{"bytes.Reader", "strings.Reader", "bytes.Buffer", "bufio(bytes.Reader)"} {
+				var rd binary2Reader
+				switch k {
+				case "bytes.Reader":
+					rd = bytes.NewReader(p)
+				case "strings.Reader":
+					rd = strings.NewReader(string(p))
+				case "bytes.Buffer":
+					rd = bytes.NewBuffer(append([]byte{}, p...))
+				default:
+					rd = bufio.NewReader(bytes.NewReader(p))
+				}
+				got := iccOutReader(rd, p)
+				c.stats["icc-source-type/"+k]++
+				if descClass(got) != descClass(ref) {
+					c.direct(fmt.Sprintf("C08/icc-source-type/%s/size-field=%d/len=%d", k, sz, len(p)), "ICC profile reader result depends on the dynamic type of the reader the same bytes arrive through",
+						map[string]interface{}{"reader": k, "size_field": sz, "len": len(p), "segmented_bufio": trunc([]byte(ref), 200), "got": trunc([]byte(got), 200), "profile": hexs(trunc(p, 300))})
+				}
+			}
+		}
+	}
 	for _, p := range profiles {
 		ref, _ := iccOut(p)
 		for _, sc := range [][]int{nil, {1}, {2}, {3}, {7}, {4095}, {100000}, randSched(r)} {
